@@ -163,7 +163,7 @@ def generate(seed, tier, focus="frame"):
             if i % 6 == 5:
                 # a burst: the receive loop runs ahead of the parse loop; nothing may be lost or delivered twice
                 nb = g.pick([3, 8, 30])
-                lines.append("udpwire burst %d %d # spec=C10 eq ok n=%d each-once # spec=C09 eq ok n=%d each-once" % (nb, i, nb, nb))
+                lines.append("udpwire burst %d %d # spec=C10 eq ok n=%d each-once # spec=C09 eq ok n=%d each-once # spec=C04 eq ok n=%d each-once" % (nb, i, nb, nb, nb))
                 g.count("udpwire_bursts")
             g.count("udpwire_kind_%d" % min(k, 3))
     else:
